@@ -8,6 +8,7 @@ DEVS = {
     "Dev_BuiltinIgnoreList": "TRUE",         # D11
     "Dev_AddEmptyNameReturns": "FALSE",      # D9: repaired by e8e067a
     "Dev_QuitRefusedWhenBusy": "FALSE",      # D6: repaired by 87748aa
+    "Dev_SocketEventStartsAll": "FALSE",     # D13: repaired (arbiter.manage_watchers)
 }
 
 
